@@ -674,7 +674,7 @@ Proof using Hexp Husage.
   unfold erroneous in Herr. rewrite Ht, Hb in Herr. apply orb_false_elim in Herr.
   destruct Herr as [Hrel Hmm].
   rewrite (step_cmd cfg s c msg o TRelease cs Hlk Ht).
-  set (s1 := set_log s [LFrame c (FAck (m_id msg)) (is_clean s)]).
+  set (s1 := set_log s [LFrame c (FAck (m_id msg)) (is_clean s) (now s)]).
   assert (Hco : conn_of s1 c = cs) by (unfold conn_of; cbn; rewrite Hlk; reflexivity).
   rewrite (dispatch_bound cfg c TRelease msg o s1 a side); try discriminate;
     [|rewrite Hco; exact Hb].
@@ -809,7 +809,7 @@ Proof using Hexp Husage.
   assert (Hhas : has_conn c s = true) by (unfold has_conn; rewrite Hl; reflexivity).
   rewrite Hhas.
   rewrite (on_message_eval cfg c msg o s TClose Ht).
-  set (s0 := set_log s (LFrame c (FAck (m_id msg)) (is_clean s) :: log s)).
+  set (s0 := set_log s (LFrame c (FAck (m_id msg)) (is_clean s) (now s) :: log s)).
   assert (Hc0 : conn_of s0 c = cs).
   { unfold conn_of, s0. cbn [conns set_log]. rewrite Hl. reflexivity. }
   rewrite (dispatch_bound cfg c TClose msg o s0 a side)
